@@ -51,12 +51,15 @@ type PathResult struct {
 	Notes    []string
 	NAsserts int
 	RandN    int
+	Weight   string // probability mode: exact probability of the path (rational)
+	Output   string
 }
 
 type ExploreResult struct {
 	Paths        int
 	ByStatus     map[string]int
 	Decisions    int
+	Weighted     []*PathResult // probability mode: every completed path
 	Candidates   []*PathResult // violations etc. with models
 	Samples      []*PathResult // OK paths with models (for native validation)
 	Inconclusive []*PathResult
@@ -214,6 +217,14 @@ func (w *Worker) RunPath(h *ssa.Function, prefix []Decision, concrete map[string
 		Reached: sortedKeys(ps.reached), Known: sortedKeys(ps.known), Steps: ps.steps, PCSize: len(ps.pc),
 		Notes: ps.notes, NAsserts: ps.nAsserts, RandN: ps.nrand,
 	}
+	if ps.probMode && end.st == StOK && !ps.isConcrete {
+		wgt, why := ps.pathWeight()
+		if wgt == nil {
+			res.Status, res.Msg = StUnsupported, "probability mode: "+why
+		} else {
+			res.Weight = wgt.RatString()
+		}
+	}
 	if ps.pos < len(ps.prefix) && end.st != StAssumeFail {
 		// the path ended before consuming its prefix: replay divergence
 		if end.st == StOK {
@@ -311,6 +322,8 @@ func Explore(cfg *Config, h *ssa.Function) (*ExploreResult, error) {
 				if wantModel {
 					pr.Model, pr.ModelRes = w.lastPS.model()
 					fillVals(pr)
+				} else if pr.Weight != "" {
+					fillVals(pr) // the choices (constants) are needed to re-run the configuration natively
 				}
 
 				mu.Lock()
@@ -337,6 +350,9 @@ func Explore(cfg *Config, h *ssa.Function) (*ExploreResult, error) {
 				}
 				switch pr.Status {
 				case StOK:
+					if pr.Weight != "" {
+						res.Weighted = append(res.Weighted, pr)
+					}
 					if pr.Model != nil && len(res.Samples) < 64 {
 						res.Samples = append(res.Samples, pr)
 					}
